@@ -5,6 +5,7 @@ package verifharness
 // projection of the implementation state that spec/ChfSeqTrace.tla judges.
 
 import (
+	"reflect"
 	"sort"
 	"crypto/sha1"
 	"bufio"
@@ -444,6 +445,13 @@ func (d *SeqDriver) runOne(b *Behaviour) {
 						// a consumer repeats its identification in every request of the session
 						body["nfConsumerIdentification"] = map[string]any{"nFName": si.c, "nodeFunctionality": "SMF"}
 					}
+				} else if strings.HasPrefix(st.S, "future") {
+					// a reference the CHF has not handed out (yet): well formed for this subscriber and consumer, its number
+					// the one the k-th next session will get (st.S = "future<k>"); the consumer identifies itself
+					k, _ := strconv.Atoi(st.S[6:])
+					n := int64(reflect.ValueOf(chf_context.GetSelf()).Elem().FieldByName("LocalRecordSequenceNumber").Uint()) + int64(k)
+					ref = d.supi(st.U) + "-" + st.C + "-" + strconv.FormatInt(n, 10)
+					body["nfConsumerIdentification"] = map[string]any{"nFName": st.C, "nodeFunctionality": "SMF"}
 				}
 				args["nfc"] = st.Nfc
 				args["ref"] = ref
